@@ -64,12 +64,19 @@ def run_check(prop, tier, seed):
             except Exception:
                 _harness_error('replay of %s/%s raised:\n%s'
                                % (prop, cls, traceback.format_exc()))
+            # The same history must fail every time. Details may legitimately
+            # differ between two replays when the code under test iterates a set
+            # of objects hashed by id (InspectWrapper does); that is recorded,
+            # only a disagreement on the verdict itself is a harness error.
+            if bool(o1.get('violates', True)) != bool(o2.get('violates', True)):
+                _harness_error('replay divergence for %s/%s: %r vs %r'
+                               % (prop, cls, o1, o2))
             ign = set(o1.get('_ignore_in_divergence_check', [])) | \
                 set(o2.get('_ignore_in_divergence_check', []))
             if ({k: v for k, v in o1.items() if k not in ign} !=
                     {k: v for k, v in o2.items() if k not in ign}):
-                _harness_error('replay divergence for %s/%s: %r vs %r'
-                               % (prop, cls, o1, o2))
+                art['replay_details_differ_between_runs'] = True
+                art['observed_second_replay'] = o2
             if not o1.get('violates', True):
                 _harness_error('violation %s/%s did not reproduce in a fresh '
                                'replay: %r' % (prop, cls, o1))
